@@ -589,6 +589,15 @@ func (sc *segmentController[T, O]) getSegmentInterval() IntervalRule {
 	return sc.opts.SegmentInterval
 }
 
+// getTTL returns a copy of the live TTL taken under the options lock, so a
+// concurrent updateOptions can never be observed half-applied (new unit with
+// the old number, or vice versa).
+func (sc *segmentController[T, O]) getTTL() IntervalRule {
+	sc.optsMutex.RLock()
+	defer sc.optsMutex.RUnlock()
+	return sc.opts.TTL
+}
+
 func (sc *segmentController[T, O]) updateOptions(resourceOpts *commonv1.ResourceOpts) {
 	sc.optsMutex.Lock()
 	defer sc.optsMutex.Unlock()
@@ -976,11 +985,11 @@ func (sc *segmentController[T, O]) remove(deadline time.Time) (hasSegment bool, 
 // Queries should exclude such fully expired segments to avoid serving TTL-expired
 // data; partially expired segments remain visible until their end passes the deadline.
 func (sc *segmentController[T, O]) getRetentionDeadline() time.Time {
-	return sc.clock.Now().Local().Add(-sc.getOptions().TTL.estimatedDuration())
+	return sc.clock.Now().Local().Add(-sc.getTTL().estimatedDuration())
 }
 
 func (sc *segmentController[T, O]) getExpiredSegmentsTimeRange() *timestamp.TimeRange {
-	deadline := sc.clock.Now().Local().Add(-sc.opts.TTL.estimatedDuration())
+	deadline := sc.clock.Now().Local().Add(-sc.getTTL().estimatedDuration())
 	timeRange := &timestamp.TimeRange{
 		IncludeStart: true,
 		IncludeEnd:   false,
@@ -999,11 +1008,12 @@ func (sc *segmentController[T, O]) getExpiredSegmentsTimeRange() *timestamp.Time
 }
 
 func (sc *segmentController[T, O]) deleteExpiredSegments(segmentSuffixes []string) int64 {
-	deadline := sc.clock.Now().Local().Add(-sc.opts.TTL.estimatedDuration())
+	ttl := sc.getTTL()
+	deadline := sc.clock.Now().Local().Add(-ttl.estimatedDuration())
 	var count int64
 	ss, _ := sc.segments(context.Background(), false)
 	sc.l.Info().Str("segment_suffixes", fmt.Sprintf("%s", segmentSuffixes)).
-		Str("ttl", fmt.Sprintf("%d(%s)", sc.opts.TTL.Num, sc.opts.TTL.Unit)).
+		Str("ttl", fmt.Sprintf("%d(%s)", ttl.Num, ttl.Unit)).
 		Str("deadline", deadline.String()).
 		Int("total_segment_count", len(ss)).Msg("deleting expired segments")
 	shouldDeleteSuffixes := make(map[string]bool)
